@@ -598,6 +598,34 @@ fn deliver_all<S: Scenario<Case = Case>>(
             entry: Entry::Greedy,
             reader: sim_reader,
         });
+        // the same octets at the head of an astronomically long sparse input
+        if rng.chance(1, 6) {
+            let total = match rng.below(6) {
+                0 => (1u64 << 32) + rng.range(0, 70_000),
+                1 => 1u64 << 40,
+                2 => (1u64 << 48) + 5,
+                3 => 1u64 << 62,
+                4 => (1u64 << 61) + rng.range(0, 1 << 20),
+                // no octet string is longer than isize::MAX
+                _ => isize::MAX as u64 - rng.range(0, 16),
+            };
+            ctx.obs.count("fault:head-of-huge-sparse-input");
+            let is_control = b.first().map_or(false, |x| x & 1 != 0);
+            if is_control || b.first().map_or(false, |x| x & 2 != 0) {
+                // self-delimiting messages only: a data message without a
+                // length field would be the whole source
+                ctx.check::<S>(&Case {
+                    bytes: b.clone(),
+                    entry: if rng.bool() { Entry::TryRead } else { Entry::Validate(rng.below(8) as u8) },
+                    reader: ReaderCfg::Sparse(total),
+                });
+            }
+            ctx.check::<S>(&Case {
+                bytes: b[body_from..].to_vec(),
+                entry: Entry::Greedy,
+                reader: ReaderCfg::Sparse(total),
+            });
+        }
         // read faults: a reader that declines spans across discontinuities
         if full || rng.chance(1, 3) {
             let rf = draw_refusing(rng, b.len());
